@@ -306,6 +306,10 @@ def validate_groups(ctx, groups):
             ctx.violation(dict(kind="cg", clause=clause.split(" ")[0] + " " + clause.split(" ")[1], system=meta["kind"], variant=meta["variant"]),
                           "%s solver on a %s system, %s: %s (info=%s nit=%s raised=%s)" % (meta["variant"], meta["kind"], {k: v for k, v in meta["kw"].items()}, clause, meta["info"], meta["nit"], meta["raised"]),
                           replay=meta)
+        for tid, name in tracemod.masked_truth(tv, traces, lambda t: t["truth"]):
+            meta = items[tid][1]
+            ctx.violation(dict(kind="cg", clause=name, system=meta["kind"], variant=meta["variant"]), "%s solver on a %s system, %s: ground truth '%s' is false (and the run is not a behaviour of the skeleton)" % (
+                meta["variant"], meta["kind"], meta["kw"], name), replay=meta)
         for tid in tv.rejected:
             if not any(t == tid for t, _, _ in tv.propfail):
                 nrej += 1
